@@ -268,8 +268,12 @@ def read_str_coding(source):
     # The declaration may only be on one of the first two lines, whatever
     # the newline convention of the file is.
     for line in newline.split(source, 2)[:2]:
-        if re.match(CODING_LINE_PATTERN, line):
-            return _find_coding(line)
+        match = re.match(CODING_LINE_PATTERN, line)
+        if match:
+            coding = match.group(1)
+            if isinstance(coding, bytes):
+                coding = coding.decode("utf-8")
+            return coding
     else:
         return
 
